@@ -67,15 +67,13 @@ static std::string UnHex(const std::string& h)
 	return o;
 }
 
+/* The value of a number literal (incl. durations) is an ORACLE INPUT: whatever the real lexer makes of the text (the property
+ * does not define the intermediate arithmetic of `1.5h`); the model receives the binary64 pattern on the operation line. */
+static double LiteralValue(const std::string& text);
+
 static Node Num(const std::string& text)
 {
-	/* exactly what config_lexer.ll does with the token */
-	double v = strtod(text.c_str(), nullptr);
-	char last = text.back();
-	if (text.size() > 2 && text.substr(text.size() - 2) == "ms") v = v / 1000;
-	else if (last == 'd') v = v * 60 * 60 * 24;
-	else if (last == 'h') v = v * 60 * 60;
-	else if (last == 'm') v = v * 60;
+	double v = LiteralValue(text);
 	Node n = N0("n", text);
 	memcpy(&n.bits, &v, 8);
 	return n;
@@ -386,25 +384,56 @@ static std::string Canon(const Value& v, int depth = 0)
 	return "obj";
 }
 
+/* Error classes WITHOUT reading message texts: the wording of the recursion error and of the parser's capacity error are
+ * learnt from this very build at start-up (Calibrate), every other script error is just "e". */
+static std::string g_StackMsg, g_CapMsg;
+
 static std::string ErrKind(const std::string& m)
 {
-	static const std::pair<const char *, const char *> pats[] = {
-		{ "Stack overflow while evaluating", "stack" }, { "cannot be applied to values of type", "optype" },
-		{ "Right-hand side argument for operator", "divzero" }, { "Tried to access undefined script variable", "undefvar" },
-		{ "Argument is not a callable object", "notcallable" }, { "Invalid field access", "badfield" },
-		{ "is out of bounds", "bounds" }, { "_M_range_check", "bounds" }, { "Index to remove must be within bounds", "bounds" },
-		{ "Invalid right side argument for 'in'", "inrhs" }, { "Invalid type in for expression", "fortype" },
-		{ "iterator for", "fortype" }, { "on a value that is not an object", "setnull" }, { "to an object", "notobject" },
-		{ "bad lexical cast", "badcast" }, { "to an integer", "badcast" }, { "Too few arguments", "args" }, { "Invalid number of arguments", "args" },
-		{ "String index is out of range", "range" }, { "Expression cannot be assigned to", "noassign" },
-		{ "Namespace is read-only", "frozen" }, { "to a floating point number", "tonumber" } };
-	for (auto& p : pats)
-		if (m.find(p.first) != std::string::npos)
-			return std::string("e:") + p.second;
-	return "e:user:" + Hex(m);
+	if (!g_StackMsg.empty() && m == g_StackMsg)
+		return "e:stack";
+	return "e";
 }
 
-static const char *g_UserGlobals[] = { "g0", "g1", "g2", "g3", "gf0", "gf1", "gf2", "gf3" };
+static std::map<std::string, double> g_LitCache;
+
+static double LiteralValue(const std::string& text)
+{
+	auto it = g_LitCache.find(text);
+	if (it != g_LitCache.end()) return it->second;
+	double v = 0;
+	try {
+		std::unique_ptr<Expression> expr = ConfigCompiler::CompileText("<lit>", text);
+		ScriptFrame frame(true);
+		Value lv = expr->Evaluate(frame);
+		v = lv;
+	} catch (const std::exception&) {
+		v = strtod(text.c_str(), nullptr);
+	}
+	g_LitCache[text] = v;
+	return v;
+}
+
+static std::string MessageOf(const std::string& text)
+{
+	try {
+		std::unique_ptr<Expression> expr = ConfigCompiler::CompileText("<cal>", text);
+		ScriptFrame frame(true);
+		expr->Evaluate(frame);
+	} catch (const std::exception& ex) {
+		return ex.what();
+	}
+	return "";
+}
+
+static void CleanGlobals();
+
+static void Calibrate()
+{
+	g_StackMsg = MessageOf("function gf0() { gf0() }\ngf0()");
+	g_CapMsg = MessageOf(std::string(40000, '(') + "1" + std::string(40000, ')'));
+	CleanGlobals();
+}
 
 static bool IsUserName(const std::string& n)
 {
@@ -443,9 +472,9 @@ static std::string RunText(const std::string& text, bool hostile)
 	} catch (const ScriptError& ex) {
 		DebugInfo di = ex.GetDebugInfo();
 		char b[64]; snprintf(b, sizeof b, "syntax@%d:%d", di.FirstLine, di.FirstColumn);
-		return hostile ? std::string("err:") + b : std::string(b) + ":" + Hex(ex.what());
+		return hostile ? std::string("err:") + b : std::string(b);
 	} catch (const std::exception& ex) {
-		return hostile ? "err:std" : "syntax@0:0:" + Hex(ex.what());
+		return hostile ? "err:std" : "syntax@0:0";
 	}
 	if (!expr) return hostile ? "ok" : "v:null";
 	/* configcompiler.cpp:244-250: a syntax error is returned as a ThrowExpression carrying the message and location */
@@ -458,8 +487,8 @@ static std::string RunText(const std::string& text, bool hostile)
 	} catch (const ScriptError& ex) {
 		if (isSyntax) {
 			DebugInfo di = ex.GetDebugInfo();
-			char b[64]; snprintf(b, sizeof b, "syntax@%d:%d", di.FirstLine, di.FirstColumn);
-			r = hostile ? std::string("err:") + b : std::string(b) + ":" + Hex(ex.what());
+			char b[64]; snprintf(b, sizeof b, "%s@%d:%d", (!g_CapMsg.empty() && g_CapMsg == ex.what()) ? "syntaxcap" : "syntax", di.FirstLine, di.FirstColumn);
+			r = hostile ? std::string("err:") + b : std::string(b);
 		} else
 			r = hostile ? "err:script" : ErrKind(ex.what());
 	} catch (const std::exception& ex) {
@@ -1134,6 +1163,7 @@ int main(int argc, char **argv)
 	const char *prec = getenv("VERIF_C15_PREC");
 	if (!prec || !LoadPrec(prec)) { fprintf(stderr, "c15: precedence table (VERIF_C15_PREC) missing or unreadable\n"); return 3; }
 	vh::InitIcinga();
+	Calibrate();
 	{
 		int saved = dup(1);
 		int nul = open("/dev/null", O_WRONLY);
